@@ -21,6 +21,7 @@ type Env struct {
 	vars  map[string]Val
 	frame *Frame // for local cells by name (nil in callee-contract evaluation)
 	bound map[string]Val
+	inOld bool
 }
 
 func (f *Frame) env(st *State) *Env {
@@ -156,7 +157,9 @@ func (e *Env) eval(x Expr) Val {
 	case EIdent:
 		return e.ident(t.Name)
 	case EOld:
-		return e.inState(e.old).eval(t.X)
+		oe := e.inState(e.old)
+		oe.inOld = true
+		return oe.eval(t.X)
 	case EUnary:
 		switch t.Op {
 		case "!":
@@ -210,6 +213,18 @@ func (e *Env) ident(name string) Val {
 	vc := e.vc
 	if v, ok := e.bound[name]; ok {
 		return v
+	}
+	if e.inOld {
+		// entry state: local cells do not exist yet; parameters denote their entry values
+		if v, ok := e.vars[name]; ok {
+			return v
+		}
+	}
+	// contract-level names (lets, ghosts) shadow locals
+	if e.frame != nil {
+		if v, ok := e.frame.spec[name]; ok {
+			return v
+		}
 	}
 	// current local cell (loop invariants, hints)
 	if e.frame != nil {
@@ -558,6 +573,29 @@ func (e *Env) quant(t EForall) Val {
 	if t.Exists {
 		unsup("spec: exists is not supported (use a ghost witness)")
 	}
+	// A quantifier over a slice index is re-based to the ABSOLUTE position in the backing array, so that
+	// its trigger is a plain (select array p) that matches every read whatever offset arithmetic produced
+	// the index:  forall j :: P(s[j])   ==>   forall p :: P'(elems(s)[p])  with j = p - off(s).
+	if len(t.Vars) == 1 && len(t.Triggers) == 0 && (t.Vars[0].Type == "" || t.Vars[0].Type == "int" || t.Vars[0].Type == "Int") {
+		if x, inOld := findIndexed(t.Body, t.Vars[0].Name, false); x != nil {
+			xe := e
+			if inOld {
+				xe = e.inState(e.old)
+				xe.inOld = true
+			}
+			if xv, ok := xe.tryEval(x); ok && xv.Typ != nil {
+				if sl, isSlice := types.Unalias(xv.Typ).Underlying().(*types.Slice); isSlice {
+					name := "q_" + t.Vars[0].Name
+					hdr := vc.define("qs", "Slice", xv.T)
+					env := e.with(t.Vars[0].Name, Val{T: fmt.Sprintf("(- %s (off %s))", name, hdr), Sort: "Int"})
+					body := env.evalBool(t.Body)
+					c := vc.comp(xe.st, elemComp(sl.Elem()), vc.elemCompSort(sl.Elem()), sl.Elem())
+					pat := fmt.Sprintf("(select (select %s (arr %s)) %s)", c, hdr, name)
+					return mathBool(fmt.Sprintf("(forall ((%s Int)) (! %s :pattern (%s)))", name, body, pat))
+				}
+			}
+		}
+	}
 	env := e
 	var binders []string
 	for _, qv := range t.Vars {
@@ -581,11 +619,100 @@ func (e *Env) quant(t EForall) Val {
 		}
 		pats = append(pats, ":pattern ("+strings.Join(ps, " ")+")")
 	}
-	_ = vc
 	if len(pats) > 0 {
 		return mathBool(fmt.Sprintf("(forall (%s) (! %s %s))", strings.Join(binders, " "), body, strings.Join(pats, " ")))
 	}
 	return mathBool(fmt.Sprintf("(forall (%s) %s)", strings.Join(binders, " "), body))
+}
+
+// tryEval evaluates an expression, reporting failure instead of aborting.
+func (e *Env) tryEval(x Expr) (v Val, ok bool) {
+	defer func() {
+		if r := recover(); r != nil {
+			if _, isUnsup := r.(unsupported); isUnsup {
+				ok = false
+				return
+			}
+			panic(r)
+		}
+	}()
+	return e.eval(x), true
+}
+
+// findIndexed looks for a sub-expression X[j] where j is exactly the bound variable and X does not
+// mention it; returns X and whether it sits under old().
+func findIndexed(x Expr, j string, inOld bool) (Expr, bool) {
+	switch t := x.(type) {
+	case EIndex:
+		if id, ok := t.I.(EIdent); ok && id.Name == j && !mentions(t.X, j) {
+			return t.X, inOld
+		}
+		if r, o := findIndexed(t.X, j, inOld); r != nil {
+			return r, o
+		}
+		return findIndexed(t.I, j, inOld)
+	case EOld:
+		return findIndexed(t.X, j, true)
+	case EUnary:
+		return findIndexed(t.X, j, inOld)
+	case EBinary:
+		if r, o := findIndexed(t.X, j, inOld); r != nil {
+			return r, o
+		}
+		return findIndexed(t.Y, j, inOld)
+	case ECond:
+		for _, s := range []Expr{t.C, t.A, t.B} {
+			if r, o := findIndexed(s, j, inOld); r != nil {
+				return r, o
+			}
+		}
+	case ESel:
+		return findIndexed(t.X, j, inOld)
+	case ECall:
+		for _, a := range t.Args {
+			if r, o := findIndexed(a, j, inOld); r != nil {
+				return r, o
+			}
+		}
+	case EForall:
+		for _, v := range t.Vars {
+			if v.Name == j {
+				return nil, false
+			}
+		}
+		return findIndexed(t.Body, j, inOld)
+	}
+	return nil, false
+}
+
+func mentions(x Expr, name string) bool {
+	switch t := x.(type) {
+	case EIdent:
+		return t.Name == name
+	case EIndex:
+		return mentions(t.X, name) || mentions(t.I, name)
+	case ESlice:
+		return mentions(t.X, name) || (t.Lo != nil && mentions(t.Lo, name)) || (t.Hi != nil && mentions(t.Hi, name))
+	case EOld:
+		return mentions(t.X, name)
+	case EUnary:
+		return mentions(t.X, name)
+	case EBinary:
+		return mentions(t.X, name) || mentions(t.Y, name)
+	case ECond:
+		return mentions(t.C, name) || mentions(t.A, name) || mentions(t.B, name)
+	case ESel:
+		return mentions(t.X, name)
+	case ECall:
+		for _, a := range t.Args {
+			if mentions(a, name) {
+				return true
+			}
+		}
+	case EForall:
+		return mentions(t.Body, name)
+	}
+	return false
 }
 
 // expandArg turns a spec value into the SMT argument list of a prelude function parameter list.
